@@ -97,6 +97,8 @@ def values(kind, n, salt):
     import numpy as np
     import sympy
     base = [2 + i + salt for i in range(n)]
+    if kind == 'zeros':
+        return [0] * n        # makes inverse / division raise at run time, after the function was generated
     if kind == 'int':
         return base
     if kind == 'float':
@@ -118,7 +120,7 @@ def values(kind, n, salt):
 
 def make_world(algname):
     from kingdon import Algebra
-    alg = Algebra(3) if algname == 'vga3' else Algebra(2, 0, 1)
+    alg = Algebra(3) if algname == 'vga3' else Algebra(7) if algname == 'vga7' else Algebra(2, 0, 1)
     w = {'alg': alg}
 
     def rn(a, b):
@@ -137,8 +139,13 @@ def make_world(algname):
 
 def operand(w, pattern, kind, salt):
     alg = w['alg']
-    keys = alg.indices_for_grades[(0, 2)] if pattern == 'A' else alg.indices_for_grades[(1,)]
-    return alg.multivector(keys=keys, values=values(kind, len(keys), salt))
+    if alg.d >= 7:
+        c = tuple(alg.canon2bin.values())
+        keys = (c[0], c[1] ^ c[2], c[3] ^ c[4]) if pattern == 'A' else (c[1], c[2], c[3])
+    else:
+        keys = alg.indices_for_grades[(0, 2)] if pattern == 'A' else alg.indices_for_grades[(1,)]
+    # a fresh tuple object per operand (like the results of real operations): the pattern, not the object, is the cache key
+    return alg.multivector(keys=tuple(list(keys)), values=values(kind, len(keys), salt))
 
 
 def do_call(w, form, pattern, kind, salt):
@@ -234,6 +241,10 @@ def histories(tier, algname):
         for t1 in TYPES:
             for t2 in TYPES:
                 out.append([(f, p, t1), (f, p, t2)])
+    # a call with the same pattern whose values make the generated function raise at run time must not invalidate the cache
+    for (f, p) in calls:
+        if f in DIRECT:
+            out.append([(f, p, 'int'), (f, p, 'zeros'), (f, p, 'Fraction')])
     if tier == 'quick':
         cs = [(f, 'A', t) for f in FORMS for t in ('int', 'sympy')]
         os_ = [(f, 'A', 'Fraction') for f in FORMS]
@@ -314,6 +325,21 @@ def long_history(task):
     return d
 
 
+FORMS7 = ['gp', 'op', 'ip', 'add', 'sub', 'sw', 'neg', 'reverse', 'hodge', 'normsq', 'regnum']
+
+
+def histories7():
+    out = []
+    for f in FORMS7:
+        for p in 'AB':
+            for t1, t2 in (('int', 'float'), ('Fraction', 'ndarray'), ('int', 'sympy')):
+                out.append([(f, p, t1), (f, p, t2)])
+            for o in FORMS7:
+                if o != f:
+                    out.append([(f, p, 'int'), (o, 'A', 'Fraction'), (f, p, 'float')])
+    return out
+
+
 def run_chunk(task):
     algname, hists = task
     from .. import bootstrap
@@ -350,6 +376,14 @@ def drive(ctx):
             compiles += out.pop('compiles_seen')
             merge(ctx.agg, out)
         ctx.agg['extra'][f'histories[{algname}]'] = len(hs)
+    # d = 7 (lazy blade table, no precomputed blades): reduced alphabet
+    hs7 = histories7()
+    for out in ctx.map('run_chunk', [('vga7', hs7[i::16]) for i in range(16)]):
+        allstates |= set(out.pop('state_keys'))
+        events += out.pop('events_seen')
+        compiles += out.pop('compiles_seen')
+        merge(ctx.agg, out)
+    ctx.agg['extra']['histories[vga7]'] = len(hs7)
     # long histories: many distinct patterns of one operator on one algebra
     n = 700 if tier == 'quick' else 2500
     lops = ['gp', 'neg'] if tier == 'quick' else ['gp', 'add', 'neg', 'reverse', 'ip', 'normsq', 'sub']
